@@ -24,10 +24,10 @@ def fval(model, term):
     """Exact Fraction value of a z3 term in a model (model completion on)."""
     z3 = z3mod()
     v = model.eval(term, model_completion=True)
-    if z3.is_rational_value(v):
-        return Fraction(v.numerator_as_long(), v.denominator_as_long())
     if z3.is_int_value(v):
         return Fraction(v.as_long())
+    if z3.is_rational_value(v):
+        return Fraction(v.numerator_as_long(), v.denominator_as_long())
     if z3.is_algebraic_value(v):
         a = v.approx(30)
         return Fraction(a.numerator_as_long(), a.denominator_as_long())
@@ -201,7 +201,9 @@ class Session:
             return 'unbounded', None
         if 'epsilon' in sv:
             return 'unknown', None
-        if z3.is_rational_value(v) or z3.is_int_value(v):
+        if z3.is_int_value(v):
+            return 'optimal', Fraction(v.as_long())
+        if z3.is_rational_value(v):
             return 'optimal', Fraction(v.numerator_as_long(), v.denominator_as_long())
         if z3.is_algebraic_value(v):
             a = v.approx(30)
